@@ -71,6 +71,13 @@ def compile_term(t, leaf, ptr=64):
             return "%r[%s]" % (tuple(t[2][0][2]), compile_term(t[2][1], leaf, ptr))
         if t[1] == "saturating_sub":
             return "max(0, (%s) - (%s))" % (compile_term(t[2][0], leaf, ptr), compile_term(t[2][1], leaf, ptr))
+        if t[1] == "is_power_of_two":
+            a = compile_term(t[2][0], leaf, ptr)
+            return "int((%s) > 0 and ((%s) & ((%s) - 1)) == 0)" % (a, a, a)
+        if t[1] == "wrapping_sub":
+            return "(((%s) - (%s)) & %d)" % (compile_term(t[2][0], leaf, ptr), compile_term(t[2][1], leaf, ptr), (1 << ptr) - 1)
+        if t[1] == "saturating_add":
+            return "min(%d, (%s) + (%s))" % ((1 << ptr) - 1, compile_term(t[2][0], leaf, ptr), compile_term(t[2][1], leaf, ptr))
         if t[1] == "wrapping_add":
             return "(((%s) + (%s)) & %d)" % (compile_term(t[2][0], leaf, ptr), compile_term(t[2][1], leaf, ptr), (1 << ptr) - 1)
     return leaf(t)
